@@ -15,7 +15,8 @@ EXPLANATION = (
     "minimum-size test, the trailing-magic comparison and the footer_size > file_size - 8 test, each "
     "with an error exit, dominate the call of parquet_parse_file_metadata, and is_open is set only "
     "after the parse status and build_schema result were tested; (3) carquet_writer_abort closes the "
-    "stream and then removes the path for path-based writers. Decides these clauses, not that every "
+    "stream and then removes the path for path-based writers, and whether it removes depends only on "
+    "{owns_file, file, path} (abort at any point leaves no file). Decides these clauses, not that every "
     "prefix of every file is rejected (that depends on byte values).")
 
 FW = "src/writer/file_writer.c"
@@ -171,6 +172,22 @@ def run(ctx):
     ctx.ob("R6.order", "abort|%s:carquet_writer_abort" % FW, P.where(ab.body),
            "abort closes the stream and then removes the file for path-based writers",
            len(fc) == 1 and len(rm) == 1 and ab.cfg.node_dominates(fc[0], rm[0]))
+    # ... at any point of the writer's life: the removal depends only on the writer owning a path-based
+    # stream, never on how far writing got
+    allowed = {"owns_file", "file", "path"}
+    offending = []
+    for c in rm + [r for r in ab.returns()]:
+        for a in c.ancestors():
+            if a.k == "IfStmt":
+                cond = [x for x in a.c if x is not None][0]
+                for m in cond.walk():
+                    if m.k == "MemberExpr" and m.name not in allowed:
+                        offending.append((a, m.name))
+                    if m.k == "CallExpr":
+                        offending.append((a, src(m)[:30]))
+    ctx.ob("R6.order", "abort-unconditional|%s:carquet_writer_abort" % FW, P.where(offending[0][0] if offending else ab.body),
+           "whether abort removes the file depends only on {owns_file, file, path}, not on the writing progress",
+           not offending and len(rm) == 1, "also depends on: %s" % sorted(set(o[1] for o in offending)) if offending else "")
 
 
 def _status_tested_between(f, a, b):
